@@ -14,7 +14,7 @@ WHERE = (2, 9, 14, 1)    # title, userId, unitList (own nsmap, under metadata), 
 
 
 class FakeJson:
-    """Contract stub for the json module: dumps returns an immutable-by-convention deep copy, loads returns a deep copy."""
+    """Contract stub for the json module: dumps returns an opaque document holding a deep copy, loads returns a deep copy."""
     @staticmethod
     def dumps(obj, indent=None, **kw):
         return ("JSON", _copy.deepcopy(obj), indent)
